@@ -181,6 +181,11 @@ class Checker:
                     rc = 1
                 else:
                     print('UNDECIDED: %s is not proved on this tree (contract mismatch); bounded stand-in %s: %s' % (short_fn(prog, fn), res, bound))
+            if hard and pid in PROPERTY_BOUNDED:
+                # no family of its own: the bounded check of the composed statement of this property (run below) stands in
+                for fn in hard:
+                    print('UNDECIDED: %s is not proved on this tree (contract mismatch); stand-in: the bounded check of the composed statement of %s' % (short_fn(prog, fn), pid))
+                hard = []
             if hard:
                 for fn in hard:
                     print('CONTRACT-ERROR: %s has no bounded stand-in; the property is undecided on this tree' % short_fn(prog, fn))
